@@ -1505,3 +1505,79 @@ Qed.
 Lemma max_slippage_each qx qy sl : dec_sub (Z.max qx qy) dec_one <= sl ->
   dec_sub qx dec_one <= sl /\ dec_sub qy dec_one <= sl.
 Proof. unfold dec_sub. lia. Qed.
+
+(** * The message level: deadline gate and ValidateBasic *)
+
+(* a swap message whose deadline is at or before the block time fails *)
+Lemma msg_step_deadline_exceeded e t s m :
+  is_swap_msg (m_op m) = true -> m_deadline m <= t -> msg_step e t s m = Err.
+Proof.
+  intros W D. unfold msg_step, deadline_exceeded. rewrite W.
+  destruct (Z.leb_spec (m_deadline m) t); [reflexivity|lia].
+Qed.
+
+(* before its deadline a message behaves exactly as the keeper call it carries *)
+Lemma msg_step_before_deadline e t s m : t < m_deadline m -> msg_step e t s m = step e s (m_op m).
+Proof.
+  intros D. unfold msg_step, deadline_exceeded.
+  destruct (Z.leb_spec (m_deadline m) t); [lia|]. rewrite andb_false_r. reflexivity.
+Qed.
+
+(* x/bank's MsgSend is not gated *)
+Lemma msg_step_bank e t s m : is_swap_msg (m_op m) = false -> msg_step e t s m = step e s (m_op m).
+Proof. intros W. unfold msg_step, deadline_exceeded. rewrite W. reflexivity. Qed.
+
+(* the gate decides by the block time alone: exceeded iff deadline <= block time *)
+Lemma msg_step_cases e t s m :
+  (is_swap_msg (m_op m) = true /\ m_deadline m <= t /\ msg_step e t s m = Err) \/
+  ((is_swap_msg (m_op m) = false \/ t < m_deadline m) /\ msg_step e t s m = step e s (m_op m)).
+Proof.
+  destruct (is_swap_msg (m_op m)) eqn:W.
+  - destruct (Z.le_gt_cases (m_deadline m) t) as [D|D].
+    + left. repeat split; try assumption. apply msg_step_deadline_exceeded; assumption.
+    + right. split; [right; lia|apply msg_step_before_deadline; lia].
+  - right. split; [left; reflexivity|apply msg_step_bank; exact W].
+Qed.
+
+(* whatever a transaction does, the keeper call it carries does: every theorem
+   about a successful [step] speaks about successful messages *)
+Lemma tx_step_ok e t s m s' outs : tx_step e t s m = Ok s' outs ->
+  validate_basic m = true /\ (is_swap_msg (m_op m) = true -> t < m_deadline m) /\ step e s (m_op m) = Ok s' outs.
+Proof.
+  unfold tx_step. destruct (validate_basic m); cbn [negb]; [|discriminate]. intros H.
+  split; [reflexivity|]. destruct (msg_step_cases e t s m) as [(W & D & E)|(W & E)]; rewrite E in H; [discriminate|].
+  split; [|exact H]. intros W'. destruct W as [W|W]; [congruence|exact W].
+Qed.
+
+(* a message that fails ValidateBasic, or whose deadline has passed, changes nothing *)
+Lemma tx_step'_rejected e t s m :
+  validate_basic m = false \/ (is_swap_msg (m_op m) = true /\ m_deadline m <= t) -> tx_step' e s (t, m) = s.
+Proof.
+  intros H. unfold tx_step', tx_step. cbn [fst snd]. destruct (validate_basic m) eqn:V; cbn [negb]; [|reflexivity].
+  destruct H as [H|(W & D)]; [discriminate|]. rewrite msg_step_deadline_exceeded by assumption. reflexivity.
+Qed.
+
+Lemma tx_step'_eq e s tm : tx_step' e s tm = s \/ tx_step' e s tm = step' e s (m_op (snd tm)).
+Proof.
+  unfold tx_step'. destruct (tx_step e (fst tm) s (snd tm)) as [s' outs| |] eqn:E; try (left; reflexivity).
+  right. apply tx_step_ok in E. destruct E as (_ & _ & E). unfold step'. rewrite E. reflexivity.
+Qed.
+
+(* the keeper invariant holds after every history of transactions, at any block times *)
+Lemma tx_run_inv e l : forall s, Inv e s -> Inv e (tx_run e s l).
+Proof.
+  induction l as [|tm l IH]; intros s I; cbn [tx_run fold_left]; [exact I|].
+  apply IH. destruct (tx_step'_eq e s tm) as [-> | ->]; [exact I|apply step'_inv; exact I].
+Qed.
+
+(* ValidateBasic keeps the keeper's sdk.NewCoins panics (zero, negative or
+   duplicate coins) out of reach: a validated deposit never takes that branch *)
+Lemma validated_deposit_not_malformed m w d1 a1 d2 a2 sl :
+  m_op m = Deposit w d1 a1 d2 a2 sl -> validate_basic m = true ->
+  ((a1 <=? 0) || (a2 <=? 0) || Nat.eqb d1 d2) = false.
+Proof.
+  intros E V. unfold validate_basic in V. rewrite E in V.
+  repeat (apply andb_true_iff in V; destruct V as (V & ?)).
+  apply Z.ltb_lt in V. apply Z.ltb_lt in H2. apply negb_true_iff in H1.
+  destruct (Z.leb_spec a1 0); [lia|]. destruct (Z.leb_spec a2 0); [lia|]. rewrite H1. reflexivity.
+Qed.
